@@ -40,6 +40,22 @@ Visit(q, n)  == IF Stops(q, n) THEN SubSeq(q, 1, n) ELSE q
 Pos(q, k)    == Idx(q, k)
 Before(q, a, b) == Pos(q, a) < Pos(q, b)
 
+(* iteration whose consumer changes the map at its at-th call (Delete(k) or Set(k, v)): the iteration goes from entry to entry -  *)
+(* after the consumer returned, it moves to the entry that follows the visited one NOW: a key deleted before its turn is not      *)
+(* visited, a key appended behind the cursor is, an overwritten value is seen if its entry is still ahead; a visited entry that  *)
+(* deletes itself is followed by the entry that followed it.  fwd = TRUE: oldest first.                                           *)
+Dir(q, fwd)  == IF fwd THEN q ELSE Reverse(q)
+NextKey(q, fwd, c) == LET d == Dir(q, fwd) i == Idx(d, c) IN IF i < Len(d) THEN d[i + 1][1] ELSE 0
+Mutate(q, s) == IF s.mut = "del" THEN Del(q, s.k) ELSE Put(q, s.k, s.v)
+RECURSIVE Walk(_, _, _, _)
+Walk(q, cur, seen, s) ==
+  IF cur = 0 THEN [seq |-> seen, m |-> q]
+  ELSE LET seen2 == Append(seen, <<cur, GetK(q, cur)[1]>>)
+           q2    == IF Len(seen2) = s.at THEN Mutate(q, s) ELSE q
+           nxt   == IF HasK(q2, cur) THEN NextKey(q2, s.fwd, cur) ELSE NextKey(q, s.fwd, cur)   \* (the visited entry deleted itself)
+       IN  Walk(q2, nxt, seen2, s)
+WalkFrom(q, s) == Walk(q, IF q = <<>> THEN 0 ELSE Dir(q, s.fwd)[1][1], <<>>, s)
+
 (* sequences of distinct keys: the arguments of DecodeInto *)
 KeySeqs == {q \in UNION {[1..n -> Keys] : n \in 0..NK} : \A i, j \in DOMAIN q : i # j => q[i] # q[j]}
 PairsOf(a, v) == [i \in DOMAIN a |-> <<a[i], v>>]
@@ -77,6 +93,7 @@ Do(s) ==
     [] s.op = "ForEach" -> Out(s, [seq |-> Visit(m, s.n), done |-> ~Stops(m, s.n)], m)
     [] s.op = "ForEachReverse" ->
                            Out(s, [seq |-> Visit(Reverse(m), s.n), done |-> ~Stops(m, s.n)], m)
+    [] s.op = "ForEachMut" -> LET w == WalkFrom(m, s) IN Out(s, [seq |-> w.seq, done |-> TRUE], w.m)
     [] s.op = "Clear"   -> Out(s, TRUE, <<>>)
        (* Clone, then on the clone Delete(k);Set(k,v): the copy is complete, ordered, and   *)
        (* independent (the original's st after the call is unchanged)                       *)
@@ -90,6 +107,8 @@ Stimuli == [op : {"Set"}, k : Keys, v : Vals]
       \cup [op : {"Get", "Has", "Delete"}, k : Keys]
       \cup [op : {"Size", "IsEmpty", "Head", "Tail", "Clear", "RoundTrip"}]
       \cup [op : {"ForEach", "ForEachReverse"}, n : 0..NK]
+      \cup [op : {"ForEachMut"}, fwd : BOOLEAN, at : 1..NK, mut : {"del"}, k : Keys, v : {0}]
+      \cup [op : {"ForEachMut"}, fwd : BOOLEAN, at : 1..NK, mut : {"set"}, k : Keys, v : Vals]
       \cup [op : {"Clone"}, k : Keys, v : Vals]
       \cup [op : {"DecodeInto"}, a : KeySeqs, v : Vals]
 Next == \E s \in Stimuli : Do(s)
@@ -110,7 +129,7 @@ Observed == ev.op # "reset" =>
 (* surviving ones (a deleted and re-inserted key is new)                                     *)
 OrderStep == LET old == KeysOf(m)  new == KeysOf(m')  kept == old \cap new IN
              /\ \A a, b \in kept : Before(m, a, b) => Before(m', a, b)
-             /\ ev'.op \notin {"Delete", "Clear"} => old \subseteq new
+             /\ ev'.op \notin {"Delete", "Clear", "ForEachMut"} => old \subseteq new
              /\ \A a \in kept, b \in new \ old : Before(m', a, b)
 (* Set/Get/Has/Delete report prior presence (and prior value) *)
 ReportStep == /\ ev'.op = "Set" => /\ (ev'.res # <<>>) = HasK(m, ev'.k)
@@ -122,6 +141,16 @@ ReportStep == /\ ev'.op = "Set" => /\ (ev'.res # <<>>) = HasK(m, ev'.k)
               /\ ev'.op \in {"Get", "Has", "Size", "IsEmpty", "Head", "Tail", "ForEach",
                              "ForEachReverse", "Clone", "RoundTrip"} => m' = m
               /\ ev'.op = "RoundTrip" => ev'.res.dec.fwd = m
+(* an iteration whose consumer changes the map: every visited key was live when it was visited and is reported once, keys are   *)
+(* visited in (reverse) insertion order, a key that is live before and after the call and lies in the walk's direction is visited *)
+IterMutStep == ev'.op = "ForEachMut" =>
+                 LET ks == [i \in DOMAIN ev'.res.seq |-> ev'.res.seq[i][1]] IN
+                 /\ \A i, j \in DOMAIN ks : i # j => ks[i] # ks[j]
+                 /\ \A i \in DOMAIN ks : ks[i] \in KeysOf(m) \cup KeysOf(m')
+                 /\ \A k \in KeysOf(m) \cap KeysOf(m') : \E i \in DOMAIN ks : ks[i] = k
+                 /\ \A i, j \in DOMAIN ks : (i < j /\ ks[i] \in KeysOf(m') /\ ks[j] \in KeysOf(m')) =>
+                        (IF ev'.fwd THEN Before(m', ks[i], ks[j]) ELSE Before(m', ks[j], ks[i]))
+IterMut == [][IterMutStep]_vars
 Order  == [][OrderStep]_vars
 Obs    == [][Observed']_vars
 Report == [][ReportStep]_vars
